@@ -1141,7 +1141,64 @@ def job_bayesnet(job):
     return {"id": job["id"], "nets": out}
 
 
-JOBS = {"bayesnet": job_bayesnet, "dists": job_dists, "invariants": job_invariants, "session": job_session, "accepts": job_accepts, "analyze": job_analyze, "linrec": job_linrec, "explattice": job_explattice, "simulate": job_simulate}
+def job_funcmoment(job):
+    """values Polar uses for E[X^a sin^b X cos^c X], E[X^a exp(cX)], and Sin/Cos/Exp of constants"""
+    from program.distribution import distribution_factory
+    from program.assignment import FunctionalAssignment
+    out = []
+    for item in job["items"]:
+        o = {"fid": item["fid"], "claims": []}
+        try:
+            d = distribution_factory(item["name"], list(item["params"])) if item.get("name") else None
+        except Exception as ex:
+            o.update(exc=type(ex).__name__)
+            out.append(o)
+            continue
+        for exact in (False, True):
+            FunctionalAssignment.exact_func_moments = exact
+            for (a, b, c, kind) in item["exponents"]:
+                rec = {"a": a, "b": b, "c": c, "kind": kind, "exact": exact}
+                signal.alarm(40)
+                try:
+                    if d is not None:
+                        powers = {}
+                        if a:
+                            powers["Id"] = a
+                        if kind == "trig":
+                            if b:
+                                powers["Sin"] = b
+                            if c:
+                                powers["Cos"] = c
+                        else:
+                            powers["Exp"] = c
+                        m = FunctionalAssignment.get_func_moment(d, powers)
+                    else:
+                        fa = FunctionalAssignment("v", item["func"], item["const"])
+                        m = fa.get_const_moment(a)
+                    m = sympy.sympify(m)
+                    if m.is_Rational:
+                        rec["value"] = f"{int(m.p)}/{int(m.q)}"
+                        rec["rational"] = True
+                    else:
+                        num = sympy.N(m, 45)
+                        re_, im_ = num.as_real_imag()
+                        rec["value"] = str(sympy.Rational(str(re_)))
+                        rec["im"] = str(im_)
+                        rec["rational"] = False
+                except JobTimeout:
+                    rec["exc"] = "timeout"
+                except Exception as ex:
+                    rec["exc"] = type(ex).__name__
+                    rec["msg"] = str(ex)[:120]
+                finally:
+                    signal.alarm(0)
+                o["claims"].append(rec)
+        FunctionalAssignment.exact_func_moments = False
+        out.append(o)
+    return {"id": job["id"], "items": out}
+
+
+JOBS = {"funcmoment": job_funcmoment, "bayesnet": job_bayesnet, "dists": job_dists, "invariants": job_invariants, "session": job_session, "accepts": job_accepts, "analyze": job_analyze, "linrec": job_linrec, "explattice": job_explattice, "simulate": job_simulate}
 
 
 def handle(job):
